@@ -43,14 +43,13 @@ type SeqCase struct {
 }
 
 var (
-	subC07Conc = register("C07", "concurrent", checkC07Concurrent)
-	subC07Seq  = register("C07", "sequential", checkC07Sequential)
+	subC07Burst = register("C07", "wrapburst", checkC07Concurrent)
+	subC07Conc  = register("C07", "concurrent", checkC07Concurrent)
+	subC07Seq   = register("C07", "sequential", checkC07Sequential)
 )
 
 // runPlan executes the plan against a fresh fixed sequencer and records the history.
 func runPlan(p *SeqPlan) []HistOp {
-	old := runtime.GOMAXPROCS(p.Procs)
-	defer runtime.GOMAXPROCS(old)
 	seq := rtp.NewFixedSequencer(p.Start)
 	var clock int64
 	hist := make([][]HistOp, p.Goroutines)
@@ -226,6 +225,8 @@ func overlapPairs(h []HistOp) int {
 
 var lastPlanPath string
 
+var c07Race bool
+
 func checkC07Concurrent(r *run, c *SeqCase) (CaseInfo, error) {
 	var ci CaseInfo
 	p := &c.Plan
@@ -233,6 +234,8 @@ func checkC07Concurrent(r *run, c *SeqCase) (CaseInfo, error) {
 	if c.Repeat > 0 {
 		reps = c.Repeat
 	}
+	oldProcs := runtime.GOMAXPROCS(p.Procs)
+	defer runtime.GOMAXPROCS(oldProcs)
 	for rep := 0; rep < reps; rep++ {
 		h := c.History
 		if h == nil || rep > 0 {
@@ -257,15 +260,19 @@ func checkC07Concurrent(r *run, c *SeqCase) (CaseInfo, error) {
 		}
 		ov := overlapPairs(h)
 		wrapsN := (int(p.Start) + nNext) / 65536
-		ci.class(fmt.Sprintf("goroutines:%d", p.Goroutines))
-		ci.class(fmt.Sprintf("procs:%d", p.Procs))
-		if ov > 0 {
+		if rep == 0 {
+			ci.class(fmt.Sprintf("goroutines:%d", p.Goroutines))
+			ci.class(fmt.Sprintf("procs:%d", p.Procs))
+		}
+		if rep == 0 && ov > 0 {
 			ci.class("overlapping-intervals")
 		}
-		if wrapsN > 0 {
+		if rep == 0 && wrapsN > 0 {
 			ci.class("wraps")
 		}
-		ci.Nontrivial = p.Goroutines >= 2 && ov > 0 && wrapsN >= 1
+		if p.Goroutines >= 2 && ov > 0 && wrapsN >= 1 {
+			ci.Nontrivial = true
+		}
 		if err := checkCounterHistory(p.Start, h); err != nil {
 			if c.History == nil {
 				c.History = h
@@ -274,19 +281,23 @@ func checkC07Concurrent(r *run, c *SeqCase) (CaseInfo, error) {
 			return ci, failf("%v (plan %+v, %d operations, %d overlapping pairs)", err, *p, total, ov)
 		}
 		// direct consequences (redundant with linearizability, cheap, independent code)
-		for v := 0; v < 65536; v++ {
-			k0 := (v - int(p.Start) + 65536) % 65536
-			want := 0
-			if nNext > k0 {
-				want = (nNext-k0-1)/65536 + 1
+		distinctWant := nNext
+		if distinctWant > 65536 {
+			distinctWant = 65536
+		}
+		bad := len(seen) != distinctWant
+		for k0 := 0; k0 < distinctWant && !bad; k0++ {
+			v := uint64(p.Start + uint16(k0))
+			if seen[v] != (nNext-k0-1)/65536+1 {
+				bad = true
 			}
-			if seen[uint64(v)] != want {
-				if c.History == nil {
-					c.History = h
-				}
+		}
+		if bad {
+			if c.History == nil {
+				c.History = h
+			}
 
-				return ci, failf("value %d handed out %d times, want %d (start %d, %d calls)", v, seen[uint64(v)], want, p.Start, nNext)
-			}
+			return ci, failf("the multiset of values handed out is not {start, start+1, ...} (start %d, %d calls, %d distinct values)", p.Start, nNext, len(seen))
 		}
 		_ = zeros
 	}
@@ -344,6 +355,34 @@ func checkC07Sequential(r *run, c *SeqSweep) (CaseInfo, error) {
 	return ci, nil
 }
 
+// genWrapBurst draws a plan that concentrates many goroutines on the few calls
+// around the 65535 -> 0 wrap, repeated for many trials on fresh sequencers: the
+// window in which a non-atomic rollover update is observable opens once per wrap, so
+// short histories that all contain a wrap multiply the opportunities.
+func genWrapBurst(t *rapid.T) *SeqCase {
+	g := rapid.IntRange(2, 16).Draw(t, "goroutines")
+	per := rapid.IntRange(2, 24).Draw(t, "opsperg")
+	before := rapid.IntRange(0, g*per-1).Draw(t, "before") // calls before the wrap
+	p := SeqPlan{
+		Start:      uint16(65536 - before%65536),
+		Goroutines: g,
+		OpsPerG:    per,
+		RollEvery:  rapid.SampledFrom([]int{2, 2, 3}).Draw(t, "rollevery"),
+		YieldEvery: rapid.SampledFrom([]int{0, 0, 1, 3}).Draw(t, "yieldevery"),
+		Procs:      rapid.SampledFrom([]int{2, 4, 16, 16}).Draw(t, "procs"),
+	}
+	for i := 0; i < g; i++ {
+		p.YieldPhase = append(p.YieldPhase, rapid.IntRange(0, 7).Draw(t, "phase"))
+	}
+
+	reps := n(600, 3000)
+	if c07Race {
+		reps = n(250, 1500)
+	}
+
+	return &SeqCase{Plan: p, Repeat: reps}
+}
+
 func genSeqCase(t *rapid.T) *SeqCase {
 	p := SeqPlan{
 		Start:      uint16(biased(t, "start", 0, 65535, 0, 1, 65534, 65535, 32768)),
@@ -352,7 +391,11 @@ func genSeqCase(t *rapid.T) *SeqCase {
 		YieldEvery: rapid.SampledFrom([]int{0, 1, 2, 7, 64, 1000}).Draw(t, "yieldevery"),
 		Procs:      rapid.SampledFrom([]int{2, 4, 16}).Draw(t, "procs"),
 	}
-	total := rapid.IntRange(70_000, n(160_000, 400_000)).Draw(t, "totalops")
+	hi := n(160_000, 400_000)
+	if c07Race && !thorough() {
+		hi = 90_000 // the race detector slows every operation down about tenfold
+	}
+	total := rapid.IntRange(70_000, hi).Draw(t, "totalops")
 	p.OpsPerG = total / p.Goroutines
 	for g := 0; g < p.Goroutines; g++ {
 		p.YieldPhase = append(p.YieldPhase, rapid.IntRange(0, 63).Draw(t, "phase"))
@@ -396,7 +439,7 @@ func selfTestChecker() error {
 	return nil
 }
 
-const ruleC07 = "concurrent: rapid draws a plan (start value biased to 0,1,65534,65535; 2-16 goroutines; 70k-400k operations so that the value wraps 1-6 times; RollOverCount read mix; Gosched pattern; GOMAXPROCS 2/4/16); every operation is recorded with invocation/response stamps from one atomic counter and the complete history is decided by an exact linearizability checker for the counter specification (greedy with exchange argument, self-tested on hand-made illegal histories), plus multiset-of-values check; half of the shards run under the Go race detector. sequential: fixed sequencers stepped through two wraps from boundary/drawn starts (thorough: all 65536 starts), RollOverCount = zeros issued after every call; NewRandomSequencer first value < 2^15. Non-trivial = history with overlapping operations of different goroutines and >=1 wrap, or a sweep that wraps; distinct = FNV-64 of the plan"
+const ruleC07 = "concurrent: rapid draws a plan (start value biased to 0,1,65534,65535; 2-16 goroutines; 70k-400k operations so that the value wraps 1-6 times; RollOverCount read mix; Gosched pattern; GOMAXPROCS 2/4/16); every operation is recorded with invocation/response stamps from one atomic counter and the complete history is decided by an exact linearizability checker for the counter specification (greedy with exchange argument, self-tested on hand-made illegal histories), plus multiset-of-values check; half of the shards run under the Go race detector. wrapburst: plans that put 2-16 goroutines x 2-24 calls (Next alternating with RollOverCount) right around the 65535->0 wrap, each repeated for 600 (thorough 3000) trials on fresh sequencers, every trial's history decided by the same checker. sequential: fixed sequencers stepped through two wraps from boundary/drawn starts (thorough: all 65536 starts), RollOverCount = zeros issued after every call; NewRandomSequencer first value < 2^15. Non-trivial = history with overlapping operations of different goroutines and >=1 wrap, or a sweep that wraps; distinct = FNV-64 of the plan"
 
 func TestC07(t *testing.T) {
 	r := begin(t, "C07", "exploration", ruleC07)
@@ -405,6 +448,7 @@ func TestC07(t *testing.T) {
 		t.Fatalf("checker self-test: %v", err)
 	}
 	race := os.Getenv("VERIF_RACE") == "1"
+	c07Race = race
 	if envOut != "" {
 		lastPlanPath = filepath.Join(envOut, fmt.Sprintf("lastplan-%d.json", envShard))
 	}
@@ -412,8 +456,10 @@ func TestC07(t *testing.T) {
 	defer func() { shrinkTime = "30s" }()
 	if race {
 		subC07Conc.rapidRun(r, n(3, 12), genSeqCase)
+		subC07Burst.rapidRun(r, n(8, 40), genWrapBurst)
 	} else {
 		subC07Conc.rapidRun(r, n(6, 40), genSeqCase)
+		subC07Burst.rapidRun(r, n(80, 300), genWrapBurst)
 	}
 	lastPlanPath = ""
 	if race {
